@@ -239,6 +239,8 @@ MODELS = [
     (r"^LiftStorage::<.*>::lookup_token$", inline_from("lookup_token", HINT_LS, 2)),
     (r"^LiftStorage::<.*>::append$", inline_from("append", HINT_LS, 3)),
     (r"^LiftStorage::<.*>::append_id$", inline_from("append_id", HINT_LS, 3)),
+    (r"^LiftStorage::<.*>::(\w+)$", lambda e, s, f, c, a, o: inline_from(c.split("::")[-1], HINT_LS, len(a))(e, s, f, c, a, o)),
+    (r"^sr::storage::Storage::<.*>::(fetch_or_append)$", lambda e, s, f, c, a, o: inline_from(c.split("::")[-1], HINT_S, len(a))(e, s, f, c, a, o)),
     (r"^sr::storage::Storage::<.*>::new$", inline_from("new", HINT_S, 0)),
     (r"^sr::storage::Storage::<.*>::append$", inline_from("append", HINT_S, 2)),
     (r"^sr::storage::Token::<.*>::new$", inline_from("new", HINT_S, 1)),
